@@ -106,4 +106,13 @@ CLAIMED["C04"] = dict(
          "the compression map whose octets AND final map contents are compared with the implementation on every run; "
          "transparency, never-longer and pointer validity by independent wire reader on the implementation (theorems pending: partial)",
     technique="machine-checked table checks in Coq over translator-regenerated layouts + model/implementation correspondence by vm_compute + independent wire reader oracle")
+CLAIMED["C20"] = dict(
+    text="Coq theorems, generic in the comparison lists regenerated from zduplicate.go on every run: the lists are well formed "
+         "(vm_compute over the whole table), hence IsDuplicate never panics and is symmetric and transitive on all records, reflexive "
+         "on every type except OPT and private types (refuted there: known findings), ignores TTL, owner case and the case of every "
+         "embedded wire name, compares every packed field (cross-check against the zmsg.go layouts), and two names are equal iff their "
+         "lower-cased wire forms are; Dedup = first occurrence per key, in order, with the minimum TTL of the group; normalizedString "
+         "cuts the TTL and lower-cases the owner; model tied to /repo by the translator plus vm_compute correspondence; the "
+         "wire-octet characterisation of RDATA equality by direct oracle (partial)",
+    technique="machine-checked proof in Coq over translator-regenerated comparison tables + model/implementation correspondence by vm_compute")
 NOT_YET = {}
